@@ -1,6 +1,6 @@
 /- line-protocol handlers of the "print" family (C12): printers, Python-grammar parser, eval over LOCALS
 
-   tokens : natural number = variable name | P PP Sum Q One Zero | lp rp lb rb cm pl mi ti at st sl ba am
+   tokens : natural number = variable name | P PP Sum Q One Zero TARGET_DOMAIN | lp rp lb rb cm pl mi ti at st sl ba am
    ast    : (n 5) | (k P) | (call f a…) | (sub f i) | (tup x…) | (un pos|neg|inv a) | (bin bor|band|add|sub|mul|div|matmul l r)
    ops    : (print rt pinned|total <ast | none> <expr>)  ->  (ok <built> <tokens> <ast> <reparsed> <domain> <simple> <namesOnce>)
               built    = (ok expr) | (err …) | none     model of evaluating the construction AST with the DSL operators
@@ -22,10 +22,11 @@ open Y0 Sexp
 namespace PrintCodec
 
 def kwToStr : Kw → String
-  | .P => "P" | .PP => "PP" | .Sum => "Sum" | .Q => "Q" | .One => "One" | .Zero => "Zero"
+  | .P => "P" | .PP => "PP" | .Sum => "Sum" | .Q => "Q" | .One => "One" | .Zero => "Zero" | .TargetDomain => "TARGET_DOMAIN"
 
 def kwOf? : String → Option Kw
   | "P" => some .P | "PP" => some .PP | "Sum" => some .Sum | "Q" => some .Q | "One" => some .One | "Zero" => some .Zero
+  | "TARGET_DOMAIN" => some .TargetDomain
   | _ => none
 
 def tokToSexp : Tok → Sexp
